@@ -168,6 +168,41 @@ def gen_file(path, rel):
                 up = bsrc[slice(*span(sl.upper, starts, bsrc))].decode()
                 emit(vb, b, "[%s:]" % up, "slice", n)
 
+    # statement deletion: a call statement, an augmented assignment, a
+    # 'continue' / 'break', an element of a keyword argument list ...
+    lines = src.splitlines(keepends=True)
+    for n in ast.walk(tree):
+        if isinstance(n, (ast.FunctionDef, ast.For, ast.While, ast.If,
+                          ast.With, ast.Try, ast.ExceptHandler)):
+            for fld in ("body", "orelse", "finalbody"):
+                blk = getattr(n, fld, None)
+                if not isinstance(blk, list):
+                    continue
+                for st in blk:
+                    if isinstance(st, ast.Expr) and isinstance(
+                            st.value, ast.Constant):
+                        continue
+                    if not isinstance(st, (ast.Expr, ast.AugAssign,
+                                           ast.Continue, ast.Break,
+                                           ast.Assign, ast.Delete)):
+                        continue
+                    if isinstance(st, ast.Assign) and not any(
+                            isinstance(t, (ast.Subscript, ast.Attribute))
+                            for t in st.targets):
+                        continue    # a dropped local binding is a NameError
+                    a = starts[st.lineno - 1]
+                    b = starts[st.end_lineno]
+                    old = bsrc[a:b].decode("utf-8")
+                    indent = old[:len(old) - len(old.lstrip())]
+                    fn = st
+                    while fn is not None and not isinstance(
+                            fn, (ast.FunctionDef, ast.ClassDef)):
+                        fn = getattr(fn, "_parent", None)
+                    out.append(dict(file=rel, line=st.lineno, a=a, b=b,
+                                    old=old, new=indent + "pass\n",
+                                    kind="del",
+                                    func=getattr(fn, "name", "<module>")))
+
     # string literals: generated-code fragments and regular expressions
     FRAG = [(r" is not ", " is "), (r" is not ", " != "), (r" is ", " == "),
             (r" == ", " != "), (r" != ", " == "), (r" and ", " or "),
